@@ -486,6 +486,55 @@ MUTANTS = [
     ("C09-nuts-keeps-derived-nodes-of-previous-state", "liesel/goose/nuts.py",
      "        model_state = self.model.update_state(blackjax_state.position, model_state)\n        return TransitionOutcome(info, kernel_state, model_state)\n",
      "        new_state = self.model.update_state(blackjax_state.position, model_state)\n        if isinstance(new_state, dict) and \"_model_log_prob\" in new_state:\n            new_state = new_state | {\"_model_log_prob\": model_state[\"_model_log_prob\"]}\n        return TransitionOutcome(info, kernel_state, new_state)\n"),
+    # ------------------------------------------------------------------ C06
+    ("C06-mvn-log-prob-without-log-determinant", "liesel/goose/iwls_utils.py",
+     "    return log_prob + adjustment\n", "    return log_prob\n"),
+    ("C06-proposal-precision-times-step-size", "liesel/goose/iwls.py",
+     "        fwd_log_prob = mvn_log_prob(flat_prop, mu_pos, chol_info_pos / step_size)\n",
+     "        fwd_log_prob = mvn_log_prob(flat_prop, mu_pos, chol_info_pos * step_size)\n"),
+    ("C06-backward-mean-uses-forward-score", "liesel/goose/iwls.py",
+     "        mu_prop = flat_prop + ((step_size**2) / 2) * solve(chol_info_prop, score_prop)\n",
+     "        mu_prop = flat_prop + ((step_size**2) / 2) * solve(chol_info_prop, score_pos)\n"),
+    ("C06-solve-second-substitution-not-transposed", "liesel/goose/iwls_utils.py",
+     "    return triangular_solve(chol_lhs, tmp, lower=True)\n", "    return triangular_solve(chol_lhs, tmp, left_side=True, lower=True)\n"),
+    ("C06-mh-kernel-negates-correction", "liesel/goose/mh_kernel.py",
+     "            proposal.log_correction,\n", "            -proposal.log_correction,\n"),
+    ("C06-iwls-correction-sign", "liesel/goose/iwls.py",
+     "        correction = bwd_log_prob - fwd_log_prob\n", "        correction = fwd_log_prob - bwd_log_prob\n"),
+    ("C06-iwls-drift-half-step-not-squared", "liesel/goose/iwls.py",
+     "        mu_pos = flat_pos + ((step_size**2) / 2) * solve(chol_info_pos, score_pos)\n",
+     "        mu_pos = flat_pos + (step_size / 2) * solve(chol_info_pos, score_pos)\n"),
+    ("C06-backward-information-at-current-point", "liesel/goose/iwls.py",
+     "        chol_info_prop = self._chol_info(model_state_prop, flat_hessian_fn)\n", "        chol_info_prop = chol_info_pos\n"),
+    # ------------------------------------------------------------------ C04
+    ("C04-mh-step-ignores-correction", "liesel/goose/mh.py",
+     "    log_acc_prob = proposed_log_prob - current_log_prob + log_correction\n", "    log_acc_prob = proposed_log_prob - current_log_prob\n"),
+    ("C04-iwls-correction-sign", "liesel/goose/iwls.py",
+     "        correction = bwd_log_prob - fwd_log_prob\n", "        correction = fwd_log_prob - bwd_log_prob\n"),
+    ("C04-log-prob-fn-evaluates-old-state", "liesel/goose/kernel.py",
+     "            new_model_state = self.model.update_state(position, model_state)\n            return self.model.log_prob(new_model_state)\n",
+     "            new_model_state = self.model.update_state(position, model_state)\n            return 0.5 * self.model.log_prob(new_model_state)\n"),
+    ("C04-mh-kernel-negates-correction", "liesel/goose/mh_kernel.py",
+     "            proposal.log_correction,\n", "            -proposal.log_correction,\n"),
+    ("C04-mh-step-keeps-old-log-prob-on-accept", "liesel/goose/mh.py",
+     "        lambda: proposed_model_state,\n",
+     "        lambda: (\n            {**proposed_model_state, \"_model_log_prob\": model_state[\"_model_log_prob\"]}\n            if isinstance(model_state, dict) and \"_model_log_prob\" in model_state\n            else proposed_model_state\n        ),\n"),
+    # ------------------------------------------------------------------ C13
+    ("C13-tau2-shape-uses-full-rank", "liesel/model/distreg.py",
+     "        a_gibbs = jnp.squeeze(a_prior + 0.5 * rank)\n", "        a_gibbs = jnp.squeeze(a_prior + rank)\n"),
+    ("C13-tau2-scale-without-half", "liesel/model/distreg.py",
+     "        b_gibbs = jnp.squeeze(b_prior + 0.5 * (beta @ K @ beta))\n", "        b_gibbs = jnp.squeeze(b_prior + (beta @ K @ beta))\n"),
+    ("C13-tau2-gamma-rate-instead-of-inverse", "liesel/model/distreg.py",
+     "        draw = b_gibbs / jax.random.gamma(prng_key, a_gibbs)\n", "        draw = jax.random.gamma(prng_key, a_gibbs) / b_gibbs\n"),
+    ("C13-tau2-uses-dimension-instead-of-rank", "liesel/model/distreg.py",
+     '        rank = group.value_from(model_state, "rank")\n', '        rank = group.value_from(model_state, "beta").shape[-1]\n'),
+    ("C13-discrete-uses-prior-only", "liesel/model/goose.py",
+     '            model.update("_model_log_prob")\n            return model.log_prob\n', '            model.update("_model_log_prior")\n            return model.log_prior\n'),
+    ("C13-discrete-stale-likelihood", "liesel/model/goose.py",
+     '            model.update("_model_log_prob")\n            return model.log_prob\n', '            model.update(name)\n            return model.log_prob\n'),
+    ("C13-discrete-categorical-on-probabilities", "liesel/model/goose.py",
+     "        draw_index = jax.random.categorical(prng_key, logits=conditional_log_probs)\n",
+     "        draw_index = jax.random.categorical(\n            prng_key, logits=jnp.exp(conditional_log_probs - conditional_log_probs.max())\n        )\n"),
 ]
 
 # Semantics-preserving changes: the property still holds, so the check must NOT raise an alarm.
